@@ -32,3 +32,7 @@ impl WorkspaceLock {
 pub(crate) fn requires_workspace_lock(tool_name: &str) -> bool {
     !matches!(tool_name, "read" | "ls" | "grep" | "artifact_fetch")
 }
+
+#[cfg(kani)]
+#[path = "/verif/harness/ripd/workspace_lock.rs"]
+mod verif_kani;
